@@ -526,6 +526,12 @@ pub fn gen_itera(c: &mut Ctx) {
                 p!(c, "itera {} {} {} nth {}", ty, n, a, b);
                 p!(c, "itera {} {} {} skip {}", ty, n, a, b);
             }
+            for a in [0usize, 1, 5] {
+                p!(c, "itera {} {} {} hint0 0", ty, n, a);
+                for b in [0usize, 1, 3, 40] {
+                    p!(c, "itera {} {} {} takecollect {}", ty, n, a, b);
+                }
+            }
             let mut steps: Vec<usize> = vec![1, 2, 3, 5, 64];
             if let Some(tot) = total {
                 steps.extend([tot - 1, tot, tot + 1, (tot + 1) / 2, tot / 4 + 1]);
@@ -1129,6 +1135,57 @@ pub fn gen_c04(c: &mut Ctx) {
         c.leave(saved);
     }
     {
+        // functions invariant under a subgroup of the permutations - rotation of the variables by
+        // one or two places, reversal, one transposition - but not totally symmetric: XOR / OR of
+        // the images of a random sparse function (seed C04-l: an early exit of the P walk that
+        // takes rotation invariance for symmetry; 16 of the 65536 functions of 4 variables)
+        let saved = c.enter("C04-invariant");
+        for n in 4..=8usize {
+            for k in 0..(if c.thorough { 16 } else { 8 }) {
+                let g = Tab::from_fn(n, |_| false);
+                let mut g = g;
+                for _ in 0..(1 + c.rng.below(3)) {
+                    let m = c.rng.below(1 << n);
+                    g.w[m >> 6] |= 1 << (m & 63);
+                }
+                let sigma: Vec<usize> = match k % 4 {
+                    0 => (0..n).map(|i| (i + 1) % n).collect(),
+                    1 => (0..n).map(|i| (i + 2) % n).collect(),
+                    2 => (0..n).map(|i| n - 1 - i).collect(),
+                    _ => (0..n).map(|i| if i == 0 { 1 } else if i == 1 { 0 } else { i }).collect(),
+                };
+                let use_or = k % 8 < 4;
+                // images of g under the powers of sigma
+                let mut acc = g.clone();
+                let mut cur = g.clone();
+                for _ in 0..n {
+                    let prev = cur.clone();
+                    cur = Tab::from_fn(n, |m| {
+                        let mut x = 0usize;
+                        for i in 0..n {
+                            x |= ((m >> i) & 1) << sigma[i];
+                        }
+                        prev.bit(x)
+                    });
+                    for (a, b) in acc.w.iter_mut().zip(cur.w.iter()) {
+                        if use_or { *a |= *b } else { *a ^= *b }
+                    }
+                }
+                let ty = if k % 2 == 0 { "D" } else { "S" };
+                for op in ops {
+                    if n >= 8 && op == "npncanon" && !c.thorough {
+                        continue;
+                    }
+                    if n == 7 && op == "npncanon" && !c.thorough && k % 4 != 0 {
+                        continue;
+                    }
+                    p!(c, "{} {} {}", op, ty, acc.show());
+                }
+            }
+        }
+        c.leave(saved);
+    }
+    {
         // NPN canonization of 8 variables (20 million steps): the model cannot follow it in the
         // quick tier, so these lines are judged by the oracle only there - one orbit, one
         // representative, no sampled orbit member smaller, certificate replays (seed C04-k: only
@@ -1331,6 +1388,21 @@ fn hist_token(r: &mut Rng, n: usize, allow_canon: bool) -> String {
 
 pub fn gen_c02(c: &mut Ctx) {
     gen_itera(c);
+    // clone_from: destination and source of the same and of different sizes
+    {
+        let saved = c.enter("C02-clonefrom");
+        for n1 in 0..=8usize {
+            for n2 in 0..=8usize {
+                let a = gen_tab(&mut c.rng, n1);
+                let b = gen_dense(&mut c.rng, n2);
+                p!(c, "clonefrom D {} {}", a.show(), b.show());
+                if n1 == n2 {
+                    p!(c, "clonefrom S {} {}", a.show(), b.show());
+                }
+            }
+        }
+        c.leave(saved);
+    }
     // equal pairs of every size, both types (the runner observes the operands between comparisons)
     {
         let saved = c.enter("C02-equal-pairs");
@@ -2100,6 +2172,32 @@ pub fn gen_c16(c: &mut Ctx) {
     p!(c, "cube display {}", sc((u32::MAX, u32::MAX)));
     p!(c, "ecube display {}", se((0, false)));
     p!(c, "ecube display {}", se((0, true)));
+    // terms whose TEXT is a prefix of their neighbour's text although the terms are unrelated:
+    // x1 next to x10, x11, x12; !x1 next to !x10; x0x1 next to x0x12; x2 next to x21 (seed C16-m:
+    // a clean-up of the printed terms by `starts_with`)
+    for (n, lo, his) in [(11usize, 1u32, vec![10u32]), (12, 1, vec![10, 11]), (13, 1, vec![10, 11, 12]), (24, 2, vec![20, 21, 23])] {
+        for hi in his {
+            for pre in [0u32, 1] {
+                for neg in [false, true] {
+                    let mk = |v: u32| -> (u32, u32) {
+                        let lit = 1u32 << v;
+                        let base = if pre == 1 && lo != 0 { 1u32 } else { 0 };
+                        if neg { (0, lit | base) } else { (lit | base, 0) }
+                    };
+                    let (a, b) = (mk(lo), mk(hi));
+                    for l in [vec![a, b], vec![b, a], vec![a, b, a], vec![a, (1 << 5, 0), b]] {
+                        p!(c, "sop display {} {}", n, scl(&l));
+                        p!(c, "esop display {} {}", n, scl(&l));
+                    }
+                    let (ea, eb) = ((1u32 << lo, neg), (1u32 << hi, neg));
+                    p!(c, "soes display {} {},{}", n, se(ea), se(eb));
+                    p!(c, "soes display {} {},{}", n, se(eb), se(ea));
+                    p!(c, "ecube display {}", se(((1u32 << lo) | (1u32 << hi), neg)));
+                    p!(c, "cube display {}", sc((a.0 | b.0, a.1 | b.1)));
+                }
+            }
+        }
+    }
     // 32-variable cubes (indices up to 31)
     for _ in 0..(if c.thorough { 500 } else { 60 }) {
         let a = rand_cube_sparse(&mut c.rng, 32);
